@@ -26,6 +26,25 @@ D.update({
  "C19-m3": {"change": "num-bigint path reduces the exponent modulo N-1", "needs": "composite / even / tiny announced moduli"},
  "C14-m3": {"change": "From<Integer> for keys copies 64-bit words and indexes four of them", "needs": "server secret S below 2^192: verifier 1 or N+1 with client key 1 or N+1"},
  "C15-m3": {"change": "registration salt has its top bit cleared", "needs": "bit 255 of the salt over many registrations"},
+ "C01-m5": {"change": "into_proof replaces an all-zero stored salt by a random one", "needs": "an account record whose salt is 32 zero bytes"},
+ "C02-m5": {"change": "'constant-time' proof comparison accumulates with XOR instead of OR", "needs": "differences in several bytes that cancel (same mask in two bytes); 1 in 256 wrong passwords"},
+ "C03-m5": {"change": "as_equal_slice strips zero pairs testing only the first byte of each pair", "needs": "S = 00 xx 00 ... (odd zero run, then a zero after the next byte)"},
+ "C04-m5": {"change": "check_public_key compares only the significant bytes with N", "needs": "the 31 keys N mod 256^j"},
+ "C05-m5": {"change": "SrpClientChallenge::new stores the password as the username", "needs": "a legitimate reconnect when password and username differ"},
+ "C06-m5": {"change": "vanilla server starts comparing the proof at its first non-zero byte", "needs": "a correct proof starting with 0x00 and byte 0 altered"},
+ "C07-m5": {"change": "vanilla decrypt works in 256-byte blocks with a stale carried byte", "needs": "a single decrypt call longer than 256 bytes"},
+ "C08-m5": {"change": "TBC encrypter: skip(index).cycle() instead of cycle().skip(index)", "needs": "a call starting at a non-zero key position and crossing the end of the 20-byte key"},
+ "C09-m5": {"change": "RC4 bulk path advances by 8 on a short last chunk", "needs": "traffic after a raw call of >= 8 bytes whose length is not a multiple of 8"},
+ "C10-m5": {"change": "Wrath client keeps the first started long header in its stash", "needs": "a second long header on the connection"},
+ "C11-m5": {"change": "Wrath client read path never fills the stash", "needs": "reader failing exactly at the fifth byte, then decrypt_large_server_header"},
+ "C12-m5": {"change": "manual Clone of the Wrath client decrypter zeroes the stash", "needs": "a clone taken between the 4-byte attempt and the fifth byte"},
+ "C13-m5": {"change": "hand-written Ord: bytes 8..16 compared with native (little-endian) significance", "needs": "two strings equal in the first 8 bytes and differing in two later positions"},
+ "C14-m5": {"change": "TBC decrypt indexes data[len-1]", "needs": "a zero-length decrypt call"},
+ "C15-m5": {"change": "card digits drawn as byte % 10 (digits 0..5 slightly over-represented)", "needs": "a frequency test over hundreds of thousands of digits"},
+ "C16-m5": {"change": "verify compares with calculate_hash(..).unwrap_or_default()", "needs": "an invalid PIN and a presented hash of twenty zero bytes"},
+ "C17-m5": {"change": "Windows checksum returns zeros when all five files are empty", "needs": "five empty file arguments"},
+ "C18-m5": {"change": "generate_coordinates loops min(count, cells - 1) rounds", "needs": "challenge count equal to the number of cells"},
+ "C19-m5": {"change": "num-bigint path: From<u8> goes through from_signed_bytes_le", "needs": "an announced generator >= 128"},
 })
 json.dump(D, open(os.path.join(V, "seeded", "summary.json"), "w"), indent=1)
 n = 0
